@@ -32,6 +32,7 @@ ASSUMPTIONS = [
 T0 = 978307200          # 2001-01-01 00:00:00 UTC, on the hour
 VALS = [0.0, 1.0, 2.5, -1.0, float("nan")]
 GAPS = [3600, 7200, 432000]
+GAPS_ODD = [5000, 10000]      # not multiples of the period: the limit must be compared in seconds
 
 
 def bound_text(tier, seed):
@@ -70,6 +71,10 @@ def units(tier, seed):
         else:
             split.append(u)
     us = split
+    # maxgapsec that is not a multiple of the period, all k=2,3 tuples with valid values
+    for k in (2, 3):
+        for s0 in lat900:
+            us.append({"kind": "main", "lattice": [900, 10800], "k": k, "s0": s0, "valmode": "valid", "gaps": GAPS_ODD, "seed": seed})
     # long spans: the period index times the period length crosses 2**31 after 68 years of half-hours
     us.append({"kind": "longspan", "years": 71, "P": 1800, "rainfall": 0})
     us.append({"kind": "longspan", "years": 71, "P": 1800, "rainfall": 1})
@@ -82,6 +87,10 @@ def units(tier, seed):
 def value_vectors(k, mode, seed):
     if mode == "full":
         for v in itertools.product(VALS, repeat=k):
+            yield list(v)
+        return
+    if mode == "valid":
+        for v in itertools.product([0.0, 1.0, 2.5], repeat=k):
             yield list(v)
         return
     bases = [[1.0, 2.5, 0.0, 1.0, 2.5][:k], [2.5] * k]
